@@ -466,6 +466,24 @@ func replayRace(l *loaded, repoDir, hdir string, vs []*Violation) []bool {
 				}
 			}
 		}
+		if !out[i] && v.Label != "data race" {
+			// a schedule-dependent functional violation: many plain iterations give the interleaving a chance
+			var many []replayCase
+			for k := 0; k < 20000; k++ {
+				many = append(many, replayCase{Entry: v.Entry, Arg: v.Arg, Values: v.Values})
+			}
+			nr2 := replayNativeT(l, repoDir, hdir, many, false, "90s")
+			if nr2.Err == "" {
+				for k := range nr2.Results {
+					if reproduced(&nr2.Results[k], v.Label) {
+						out[i] = true
+						break
+					}
+				}
+			} else if strings.Contains(nr2.Output, "fatal error: concurrent map") {
+				out[i] = true
+			}
+		}
 	}
 	return out
 }
